@@ -61,6 +61,8 @@ def r1(ctx):
 @rule("C04", "R2", "AGREE", "the stacker's row count and the joint front end's stacked sizes are both T_k - W + 1", floor=2)
 def r2(ctx):
     ana = ctx.ana
+    from . import c10
+    ctx.sub(c10.r1)          # ... and every row has all N*W columns of the caller's series (the MRFs are NW x NW)
     st = ana.func("data_preparation.stack_training_data")
     b = ana.builder(st, no_inline=ana.known)
     cfg = ana.cfg(st)
